@@ -802,6 +802,7 @@ package engine
 //@ func (r ImportsReplacer) Cleanup(d, f, newNames) (err)
 //@   requires d != nil && f != nil
 //@   at call golang.org/x/tools/go/ast/astutil.DeleteNamedImport assert [C11] deletes-only-the-matched-import: arg3 == imp && (dmap(d)[boxed(as("github.com/uber-go/gopatch/internal/engine.importKey", imp))] == nil ==> arg2 == "")
+//@   at call golang.org/x/tools/go/ast/astutil.DeleteNamedImport assert [C11] deleted-under-the-name-recorded-for-this-very-import: arg2 == impRecName(dmap(d), imp)
 //@   at call golang.org/x/tools/go/ast/astutil.DeleteNamedImport assert [C11] only-if-replaced-or-unused: replaced || !ret("engine.usesNameAsTopLevel", 0)
 //@   at call engine.usesNameAsTopLevel assert [C11] usage-is-checked-under-this-imports-own-package-name: dmap(d)[boxed(as("github.com/uber-go/gopatch/internal/engine.importKey", imp))] == nil ==> arg1 == pathBase(imp)
 //@   assigns group(ast), restructured
